@@ -5,8 +5,8 @@ namespace Fastrace
 
 /-! ### the span stack never changes a scope's token -/
 
-theorem stackOk_lines {T : List Nat} {st st' : Stack} (h : StackOk T st)
-    (hl : ∀ l' ∈ st'.lines, ∃ l ∈ st.lines, l'.token = l.token) : StackOk T st' := by
+theorem stackOk_lines {T U : List Nat} {st st' : Stack} (h : StackOk T U st)
+    (hl : ∀ l' ∈ st'.lines, ∃ l ∈ st.lines, l'.token = l.token) : StackOk T U st' := by
   intro l' hl' tok htok
   obtain ⟨l, hlm, e⟩ := hl l' hl'
   exact h l hlm tok (e ▸ htok)
@@ -48,8 +48,8 @@ theorem head_upd {st : Stack} {l l' : SpanLine} {ls : List SpanLine} (hst : st.l
   · exact ⟨l, by simp [hst], ht⟩
   · exact ⟨x, by simp [hst, hx], rfl⟩
 
-theorem StackOk.enterSpan {T : List Nat} {st st' : Stack} {c c' : Ctr} {n : String} {h : LocalHandle}
-    (hok : StackOk T st) (hs : st.enterSpan c n = some (st', h, c')) : StackOk T st' := by
+theorem StackOk.enterSpan {T U : List Nat} {st st' : Stack} {c c' : Ctr} {n : String} {h : LocalHandle}
+    (hok : StackOk T U st) (hs : st.enterSpan c n = some (st', h, c')) : StackOk T U st' := by
   unfold Stack.enterSpan at hs
   cases hl : st.lines with
   | nil => rw [hl] at hs; cases hs
@@ -65,37 +65,37 @@ theorem StackOk.enterSpan {T : List Nat} {st st' : Stack} {c c' : Ctr} {n : Stri
       rw [← hs.1]
       exact stackOk_lines hok (head_upd hl (SpanLine.startSpan_token l c n l' h' c'' hss))
 
-theorem StackOk.exitSpan {T : List Nat} {st : Stack} (hok : StackOk T st) (c : Ctr) (h : LocalHandle) :
-    StackOk T (st.exitSpan c h).1 := by
+theorem StackOk.exitSpan {T U : List Nat} {st : Stack} (hok : StackOk T U st) (c : Ctr) (h : LocalHandle) :
+    StackOk T U (st.exitSpan c h).1 := by
   unfold Stack.exitSpan
   cases hl : st.lines with
   | nil => dsimp only; exact hok
   | cons l ls => exact stackOk_lines hok (head_upd hl (SpanLine.finishSpan_token l c h))
 
-theorem StackOk.addEvent {T : List Nat} {st : Stack} (hok : StackOk T st) (c : Ctr) (n : String) (p : Option Props) :
-    StackOk T (st.addEvent c n p).1 := by
+theorem StackOk.addEvent {T U : List Nat} {st : Stack} (hok : StackOk T U st) (c : Ctr) (n : String) (p : Option Props) :
+    StackOk T U (st.addEvent c n p).1 := by
   unfold Stack.addEvent
   cases hl : st.lines with
   | nil => dsimp only; exact hok
   | cons l ls => exact stackOk_lines hok (head_upd hl (SpanLine.addEvent_token l c n p))
 
-theorem StackOk.addProps {T : List Nat} {st : Stack} (hok : StackOk T st) (c : Ctr) (kvs : Props) :
-    StackOk T (st.addProps c kvs).1 := by
+theorem StackOk.addProps {T U : List Nat} {st : Stack} (hok : StackOk T U st) (c : Ctr) (kvs : Props) :
+    StackOk T U (st.addProps c kvs).1 := by
   unfold Stack.addProps
   cases hl : st.lines with
   | nil => dsimp only; exact hok
   | cons l ls => exact stackOk_lines hok (head_upd hl (SpanLine.addProps_token l c kvs))
 
-theorem StackOk.withProps {T : List Nat} {st : Stack} (hok : StackOk T st) (h : LocalHandle) (kvs : Props) :
-    StackOk T (st.withProps h kvs) := by
+theorem StackOk.withProps {T U : List Nat} {st : Stack} (hok : StackOk T U st) (h : LocalHandle) (kvs : Props) :
+    StackOk T U (st.withProps h kvs) := by
   unfold Stack.withProps
   cases hl : st.lines with
   | nil => dsimp only; exact hok
   | cons l ls => exact stackOk_lines hok (head_upd hl (SpanLine.withProps_token l h kvs))
 
-theorem StackOk.registerLine {T : List Nat} {st st' : Stack} {tok : Option Token} {e : Nat}
-    (hok : StackOk T st) (ht : ∀ t, tok = some t → TokOk T t) (hr : st.registerLine tok = some (st', e)) :
-    StackOk T st' := by
+theorem StackOk.registerLine {T U : List Nat} {st st' : Stack} {tok : Option Token} {e : Nat}
+    (hok : StackOk T U st) (ht : ∀ t, tok = some t → TokOk T U t) (hr : st.registerLine tok = some (st', e)) :
+    StackOk T U st' := by
   unfold Stack.registerLine at hr
   split at hr
   · cases hr
@@ -107,9 +107,9 @@ theorem StackOk.registerLine {T : List Nat} {st st' : Stack} {tok : Option Token
     · intro t htk; exact ht t (by simpa [SpanLine.new] using htk)
     · exact hok l hl
 
-theorem StackOk.unregister {T : List Nat} {st : Stack} (hok : StackOk T st) (e : Nat) :
-    StackOk T (st.unregisterAndCollect e).1 ∧
-    ∀ spans tok, (st.unregisterAndCollect e).2 = some (spans, some tok) → TokOk T tok := by
+theorem StackOk.unregister {T U : List Nat} {st : Stack} (hok : StackOk T U st) (e : Nat) :
+    StackOk T U (st.unregisterAndCollect e).1 ∧
+    ∀ spans tok, (st.unregisterAndCollect e).2 = some (spans, some tok) → TokOk T U tok := by
   unfold Stack.unregisterAndCollect
   cases hl : st.lines with
   | nil => exact ⟨by dsimp only; exact hok, by simp⟩
@@ -123,8 +123,8 @@ theorem StackOk.unregister {T : List Nat} {st : Stack} (hok : StackOk T st) (e :
       exact hok l (by simp [hl]) tok hc.2
     · cases hc
 
-theorem StackOk.currentToken {T : List Nat} {st : Stack} (hok : StackOk T st) {tok : Token}
-    (hc : st.currentToken = some tok) : TokOk T tok := by
+theorem StackOk.currentToken {T U : List Nat} {st : Stack} (hok : StackOk T U st) {tok : Token}
+    (hc : st.currentToken = some tok) : TokOk T U tok := by
   unfold Stack.currentToken at hc
   cases hl : st.lines with
   | nil => rw [hl] at hc; cases hc
@@ -134,26 +134,26 @@ theorem StackOk.currentToken {T : List Nat} {st : Stack} (hok : StackOk T st) {t
     unfold SpanLine.currentToken at hc
     simp only [Option.map_eq_some_iff] at hc
     obtain ⟨t0, ht0, rfl⟩ := hc
-    intro it hit hs
+    intro it hit
     simp only [List.mem_map] at hit
     obtain ⟨it0, h0, rfl⟩ := hit
-    exact hok l (by simp [hl]) t0 ht0 it0 h0 hs
+    exact hok l (by simp [hl]) t0 ht0 it0 h0
 
 /-! ### guards, closures -/
 
-theorem Prov.setSG {T : List Nat} {s : Sys} (h : Prov T s) (t : Nat) (st : Stack) (gs : List Guard)
-    (hst : StackOk T st) : Prov T (s.setTh t { s.th t with stack := st, guards := gs }) :=
+theorem Prov.setSG {T U : List Nat} {s : Sys} (h : Prov T U s) (t : Nat) (st : Stack) (gs : List Guard)
+    (hst : StackOk T U st) : Prov T U (s.setTh t { s.th t with stack := st, guards := gs }) :=
   h.setTh t _ ⟨hst, (h.threads t).2⟩
 
-theorem Prov.setStack {T : List Nat} {s : Sys} (h : Prov T s) (t : Nat) (st : Stack)
-    (hst : StackOk T st) : Prov T (s.setTh t { s.th t with stack := st }) :=
+theorem Prov.setStack {T U : List Nat} {s : Sys} (h : Prov T U s) (t : Nat) (st : Stack)
+    (hst : StackOk T U st) : Prov T U (s.setTh t { s.th t with stack := st }) :=
   h.setSG t st (s.th t).guards hst
 
-theorem Prov.setGuards {T : List Nat} {s : Sys} (h : Prov T s) (t : Nat) (gs : List Guard) :
-    Prov T (s.setTh t { s.th t with guards := gs }) :=
+theorem Prov.setGuards {T U : List Nat} {s : Sys} (h : Prov T U s) (t : Nat) (gs : List Guard) :
+    Prov T U (s.setTh t { s.th t with guards := gs }) :=
   h.setSG t (s.th t).stack gs (h.threads t).1
 
-theorem Prov.closeGuard {T : List Nat} {s : Sys} (h : Prov T s) (t : Nat) (g : Guard) : Prov T (s.closeGuard t g) := by
+theorem Prov.closeGuard {T U : List Nat} {s : Sys} (h : Prov T U s) (t : Nat) (g : Guard) : Prov T U (s.closeGuard t g) := by
   unfold Sys.closeGuard
   cases g with
   | scope e =>
@@ -186,7 +186,7 @@ theorem Prov.closeGuard {T : List Nat} {s : Sys} (h : Prov T s) (t : Nat) (g : G
       dsimp only
       exact h.setStack t _ ((h.threads t).1.unregister epoch).1
 
-theorem Prov.runClosure {T : List Nat} {s : Sys} (h : Prov T s) (t : Nat) (cl : Closure) : Prov T (s.runClosure t cl) := by
+theorem Prov.runClosure {T U : List Nat} {s : Sys} (h : Prov T U s) (t : Nat) (cl : Closure) : Prov T U (s.runClosure t cl) := by
   unfold Sys.runClosure
   split
   · dsimp only
@@ -204,18 +204,18 @@ theorem Prov.runClosure {T : List Nat} {s : Sys} (h : Prov T s) (t : Nat) (cl : 
       dsimp only
       have htok := (h.threads t).1.currentToken hc
       have h1 := h.newSpan t "__cl" "cl-span" tok none htok
-      have hsv : SvOk T ((assocGet (s.newSpan t "__cl" "cl-span" tok none).spans "__cl").getD none) := by
+      have hsv : SvOk T U ((assocGet (s.newSpan t "__cl" "cl-span" tok none).spans "__cl").getD none) := by
         cases hg : assocGet (s.newSpan t "__cl" "cl-span" tok none).spans "__cl" with
-        | none => exact svOk_none T
+        | none => exact svOk_none T U
         | some sv => exact h1.getSpan hg
       exact (h1.delSpan "__cl").dropSpanVal t _ hsv
   · exact h
 
 /-! ### the collector's drain and cycle -/
 
-theorem Prov.finishCycle {T : List Nat} {s : Sys} (h : Prov T s) (kept : List (Nat × Ring Cmd)) (buf : List Cmd)
+theorem Prov.finishCycle {T U : List Nat} {s : Sys} (h : Prov T U s) (kept : List (Nat × Ring Cmd)) (buf : List Cmd)
     (hk : RingsOk T kept) (hb : ∀ c ∈ buf, CmdOk T c) :
-    Prov T (s.finishCycle kept buf).1 ∧ ∀ rs, (s.finishCycle kept buf).2 = some rs → RecsOk T rs := by
+    Prov T U (s.finishCycle kept buf).1 ∧ ∀ rs, (s.finishCycle kept buf).2 = some rs → RecsOk T rs := by
   unfold Sys.finishCycle
   have hc := cycleProcess_ok T id s.coll buf h.coll hb
   dsimp only
@@ -245,14 +245,14 @@ theorem drainAll_ok {T : List Nat} (rxs : List (Nat × Ring Cmd)) (h : RingsOk T
       · exact h (t, r) (by simp) c hc
       · exact ih'.2 c hc
 
-theorem Prov.cycle {T : List Nat} {s : Sys} (h : Prov T s) :
-    Prov T s.cycle.1 ∧ ∀ rs, s.cycle.2 = some rs → RecsOk T rs := by
+theorem Prov.cycle {T U : List Nat} {s : Sys} (h : Prov T U s) :
+    Prov T U s.cycle.1 ∧ ∀ rs, s.cycle.2 = some rs → RecsOk T rs := by
   unfold Sys.cycle
   have hd := drainAll_ok s.rxs h.rxs
   exact h.finishCycle _ _ hd.1 hd.2
 
-theorem Prov.withCyc {T : List Nat} {s : Sys} (h : Prov T s) (cs : CycState)
-    (hcs : RingsOk T cs.todo ∧ RingsOk T cs.kept ∧ ∀ c ∈ cs.buf, CmdOk T c) : Prov T { s with cyc := some cs } :=
+theorem Prov.withCyc {T U : List Nat} {s : Sys} (h : Prov T U s) (cs : CycState)
+    (hcs : RingsOk T cs.todo ∧ RingsOk T cs.kept ∧ ∀ c ∈ cs.buf, CmdOk T c) : Prov T U { s with cyc := some cs } :=
   ⟨h.spans, h.adapters, h.threads, h.rxs, (fun cs' e => by cases e; exact hcs), h.coll⟩
 
 theorem ringsOk_cons {T : List Nat} {e : Nat × Ring Cmd} {l : List (Nat × Ring Cmd)} :
@@ -267,8 +267,8 @@ theorem ringsOk_append_single {T : List Nat} {e : Nat × Ring Cmd} {l : List (Na
   · exact hl x hx
   · exact he
 
-theorem Prov.cycStep {T : List Nat} {s : Sys} (h : Prov T s) :
-    Prov T s.cycStep.1 ∧ ∀ rs, s.cycStep.2 = .report (some rs) → RecsOk T rs := by
+theorem Prov.cycStep {T U : List Nat} {s : Sys} (h : Prov T U s) :
+    Prov T U s.cycStep.1 ∧ ∀ rs, s.cycStep.2 = .report (some rs) → RecsOk T rs := by
   unfold Sys.cycStep
   cases hc : s.cyc with
   | none => exact ⟨h, fun rs e => by cases e⟩
@@ -312,8 +312,8 @@ theorem Prov.cycStep {T : List Nat} {s : Sys} (h : Prov T s) :
             · exact h3 c hcm
             · exact hh.1 c hcm
 
-theorem Prov.cycBegin {T : List Nat} {s : Sys} (h : Prov T s) :
-    Prov T s.cycBegin.1 ∧ ∀ rs, s.cycBegin.2 = .report (some rs) → RecsOk T rs := by
+theorem Prov.cycBegin {T U : List Nat} {s : Sys} (h : Prov T U s) :
+    Prov T U s.cycBegin.1 ∧ ∀ rs, s.cycBegin.2 = .report (some rs) → RecsOk T rs := by
   unfold Sys.cycBegin
   cases hc : s.cyc with
   | some cs => exact ⟨h, fun rs e => by cases e⟩
@@ -325,13 +325,13 @@ theorem Prov.cycBegin {T : List Nat} {s : Sys} (h : Prov T s) :
 
 /-! ### thread exit, spam, adapters -/
 
-theorem Prov.foldl_closeGuard {T : List Nat} (gs : List Guard) {s : Sys} (h : Prov T s) (t : Nat) :
-    Prov T (gs.foldl (fun s g => s.closeGuard t g) s) := by
+theorem Prov.foldl_closeGuard {T U : List Nat} (gs : List Guard) {s : Sys} (h : Prov T U s) (t : Nat) :
+    Prov T U (gs.foldl (fun s g => s.closeGuard t g) s) := by
   induction gs generalizing s with
   | nil => exact h
   | cons g gs ih => exact ih (h.closeGuard t g)
 
-theorem Prov.exitThread {T : List Nat} {s : Sys} (h : Prov T s) (t : Nat) : Prov T (s.exitThread t) := by
+theorem Prov.exitThread {T U : List Nat} {s : Sys} (h : Prov T U s) (t : Nat) : Prov T U (s.exitThread t) := by
   unfold Sys.exitThread
   dsimp only
   have h1 := Prov.foldl_closeGuard (s.th t).guards h t
@@ -346,55 +346,57 @@ theorem Prov.exitThread {T : List Nat} {s : Sys} (h : Prov T s) (t : Nat) : Prov
       exact h2.setRing t _ (Ring.senderDrop_all (CmdOk T) r _ (h2.ringOf hr) hth.2)
   · exact h2
 
-theorem Prov.spamOnce {T : List Nat} {s : Sys} (h : Prov T s) (t : Nat) : Prov T (s.spamOnce t) := by
+theorem Prov.spamOnce {T U : List Nat} {s : Sys} (h : Prov T U s) (t : Nat) (h0 : 0 ∈ U) : Prov T U (s.spamOnce t) := by
   unfold Sys.spamOnce
   split
   · exact h
   · dsimp only
-    have htok : TokOk T [⟨0, 0, Consts.notSampledCollectId, true, false⟩] := by
-      intro it hit hs
+    have htok : TokOk T U [⟨0, 0, Consts.notSampledCollectId, true, false⟩] := by
+      intro it hit
       simp only [List.mem_singleton] at hit
       subst hit
-      cases hs
+      exact ⟨(fun hs => nomatch hs), (fun _ => h0)⟩
     have h1 := h.newSpan t "__spam" "spam" _ (some Consts.notSampledCollectId) htok
-    have hsv : SvOk T ((assocGet (s.newSpan t "__spam" "spam" [⟨0, 0, Consts.notSampledCollectId, true, false⟩]
+    have hsv : SvOk T U ((assocGet (s.newSpan t "__spam" "spam" [⟨0, 0, Consts.notSampledCollectId, true, false⟩]
         (some Consts.notSampledCollectId)).spans "__spam").getD none) := by
       cases hg : assocGet (s.newSpan t "__spam" "spam" [⟨0, 0, Consts.notSampledCollectId, true, false⟩]
           (some Consts.notSampledCollectId)).spans "__spam" with
-      | none => exact svOk_none T
+      | none => exact svOk_none T U
       | some sv => exact h1.getSpan hg
     exact (h1.delSpan "__spam").dropSpanVal t _ hsv
 
-theorem Prov.spam {T : List Nat} (n : Nat) {s : Sys} (h : Prov T s) (t : Nat) :
-    Prov T (Nat.rec (motive := fun _ => Sys) s (fun _ acc => acc.spamOnce t) n) := by
+theorem Prov.spam {T U : List Nat} (n : Nat) {s : Sys} (h : Prov T U s) (t : Nat) (h0 : 0 < n → 0 ∈ U) :
+    Prov T U (Nat.rec (motive := fun _ => Sys) s (fun _ acc => acc.spamOnce t) n) := by
   induction n with
   | zero => exact h
-  | succ n ih => exact ih.spamOnce t
+  | succ n ih =>
+    have hz := h0 (Nat.succ_pos n)
+    exact Prov.spamOnce (ih (fun _ => hz)) t hz
 
-theorem Prov.getAdapter {T : List Nat} {s : Sys} (h : Prov T s) {a : String} {ad : Adapter}
-    (hg : assocGet s.adapters a = some ad) : ∀ sv, ad.span = some sv → SvOk T sv := by
+theorem Prov.getAdapter {T U : List Nat} {s : Sys} (h : Prov T U s) {a : String} {ad : Adapter}
+    (hg : assocGet s.adapters a = some ad) : ∀ sv, ad.span = some sv → SvOk T U sv := by
   obtain ⟨e, he, rfl⟩ := assocGet_mem hg
   exact h.adapters e he
 
-theorem Prov.setAdapter {T : List Nat} {s : Sys} (h : Prov T s) (a : String) (ad : Adapter)
-    (had : ∀ sv, ad.span = some sv → SvOk T sv) : Prov T { s with adapters := assocSet s.adapters a ad } :=
+theorem Prov.setAdapter {T U : List Nat} {s : Sys} (h : Prov T U s) (a : String) (ad : Adapter)
+    (had : ∀ sv, ad.span = some sv → SvOk T U sv) : Prov T U { s with adapters := assocSet s.adapters a ad } :=
   h.withAdapters _ (fun e he => by
     rcases mem_assocSet he with he | rfl
     · exact h.adapters e he
     · exact had)
 
-theorem Prov.delAdapter {T : List Nat} {s : Sys} (h : Prov T s) (a : String) :
-    Prov T { s with adapters := assocDel s.adapters a } :=
+theorem Prov.delAdapter {T U : List Nat} {s : Sys} (h : Prov T U s) (a : String) :
+    Prov T U { s with adapters := assocDel s.adapters a } :=
   h.withAdapters _ (fun e he => h.adapters e (mem_assocDel he))
 
-theorem Prov.adPoll {T : List Nat} {s : Sys} (h : Prov T s) (t : Nat) (a call : String) : Prov T (s.adPoll t a call).1 := by
+theorem Prov.adPoll {T U : List Nat} {s : Sys} (h : Prov T U s) (t : Nat) (a call : String) : Prov T U (s.adPoll t a call).1 := by
   unfold Sys.adPoll
   cases hg : assocGet s.adapters a with
   | none => exact h
   | some ad =>
     dsimp only
     have had := h.getAdapter hg
-    have hth : ThOk T (s.th t) := h.threads t
+    have hth : ThOk T U (s.th t) := h.threads t
     cases hk : ad.kind with
     | enterOnPoll =>
       dsimp only
@@ -421,7 +423,7 @@ theorem Prov.adPoll {T : List Nat} {s : Sys} (h : Prov T s) (t : Nat) (a call : 
           · exact h.setAdapter a _ (fun sv e => by cases e)
           · exact hth
         | some sv =>
-          have hsv : ∀ sv', some sv = some sv' → SvOk T sv' := by
+          have hsv : ∀ sv', some sv = some sv' → SvOk T U sv' := by
             intro sv' e; cases e; exact had _ hsp
           cases sv with
           | none =>
@@ -447,7 +449,7 @@ theorem Prov.adPoll {T : List Nat} {s : Sys} (h : Prov T s) (t : Nat) (a call : 
                 cases htk
                 exact tokOk_issue (had _ hsp sp rfl)
 
-theorem Prov.adEnd {T : List Nat} {s : Sys} (h : Prov T s) (t : Nat) (a result : String) : Prov T (s.adEnd t a result).1 := by
+theorem Prov.adEnd {T U : List Nat} {s : Sys} (h : Prov T U s) (t : Nat) (a result : String) : Prov T U (s.adEnd t a result).1 := by
   unfold Sys.adEnd
   cases hg : assocGet s.adapters a with
   | none => exact h
@@ -461,7 +463,7 @@ theorem Prov.adEnd {T : List Nat} {s : Sys} (h : Prov T s) (t : Nat) (a result :
       | none => exact h
       | some call =>
         dsimp only
-        have h1 : Prov T ((s.setTh t { s.th t with guards := gs }).closeGuard t g) :=
+        have h1 : Prov T U ((s.setTh t { s.th t with guards := gs }).closeGuard t g) :=
           (h.setGuards t gs).closeGuard t g
         split
         · have h2 := h1.setAdapter a { ad with span := none, inCall := none } (fun sv e => by cases e)
@@ -470,7 +472,7 @@ theorem Prov.adEnd {T : List Nat} {s : Sys} (h : Prov T s) (t : Nat) (a result :
           | some sv => exact h2.dropSpanVal t sv (had sv hsp)
         · exact h1.setAdapter a { ad with inCall := none } had
 
-theorem Prov.closeUnder {T : List Nat} {s : Sys} (h : Prov T s) (t : Nat) : Prov T (s.closeUnder t).1 := by
+theorem Prov.closeUnder {T U : List Nat} {s : Sys} (h : Prov T U s) (t : Nat) : Prov T U (s.closeUnder t).1 := by
   unfold Sys.closeUnder
   dsimp only
   split
@@ -482,7 +484,7 @@ theorem Prov.closeUnder {T : List Nat} {s : Sys} (h : Prov T s) (t : Nat) : Prov
       · dsimp only; exact (h.setGuards t _).closeGuard t _
       · exact h
 
-theorem Prov.collectUnder {T : List Nat} {s : Sys} (h : Prov T s) (t : Nat) (x : String) : Prov T (s.collectUnder t x).1 := by
+theorem Prov.collectUnder {T U : List Nat} {s : Sys} (h : Prov T U s) (t : Nat) (x : String) : Prov T U (s.collectUnder t x).1 := by
   unfold Sys.collectUnder
   dsimp only
   split
